@@ -49,9 +49,10 @@ RULE = (
     'generic list code of gfpx.Polynomial instantiated at p = 2 next to BinaryPolynomial. '
     'Exhaustive: every polynomial of degree <= 3 incl. 0 (unary ops, shifts 0..3, evaluation at -2..p+1, '
     'indexing, int/list/tuple/str constructors, powmod with n in -3..6 and 13 moduli incl. None/0/constants/'
-    'reducible/irreducible); every ordered PAIR for p in {2,3} (degree <= 3) and p in {5,7} (degree <= 2; quick tier '
-    'p = 7: 6 of the 9 pair operations per pair, rotating; thorough: all 9, and p = 5 up to degree 3) plus a seeded '
-    'sample of pairs involving degree 3; ring laws on all triples of '
+    'reducible/irreducible); every ordered PAIR for p in {2,3} (degree <= 3); p in {5,7}: thorough tier every pair of '
+    'degree <= 2 (p = 5: <= 3), quick tier every pair of degree <= 1 plus seeded samples of 5000/7000 pairs of '
+    'degree <= 2 and 3000 pairs involving degree 3 (quick p = 7: unary ops on degree <= 2, powmod on degree <= 1 + 200 '
+    'sampled; p = 5: powmod on degree <= 2 + 200 sampled); ring laws on all triples of '
     'degree <= 3 (p=2) / <= 2 (p=3) and random triples otherwise. Random: degrees -1..40 with shapes generic/'
     'equal operands/b divides a/common factor/constant/zero/monic and non-monic divisors. Every operation is '
     'reached through several entry points (operator, reflected operator with int/list/tuple/str operand, class '
@@ -77,7 +78,9 @@ ASSUMPTIONS = [
     'Python int arithmetic, itertools, random and the harness oracle gfpx_oracle.py are correct',
 ]
 TRUSTED = ['harness/gfpx_oracle.py (independent schoolbook reference)',
-           'lean/Drv/GFpX.lean line-protocol driver (parsing/printing of the model values)']
+           'lean/Drv/GFpX.lean line-protocol driver (parsing/printing of the model values)',
+           'native compilation (lean -c + leanc) of the driver and the two model files, used for speed; a seeded '
+           'probe of every run is answered by the interpreter too and must be identical, else the interpreter is used']
 
 # Known genuine deviations of the real code (reported once each, minimal instance, under these stable keys; the
 # correspondence still agrees on them because the Lean model transcribes the code as it is):
@@ -1085,6 +1088,102 @@ class _Inputs:
         return {'request': self.J.reqs[i], 'real_call': func, 'class': dname}
 
 
+
+# ---------------------------------------------------------------------------------------------
+# Lean driver: natively compiled copy of lean/Drv/GFpX.lean (same source, `lean -c` + `leanc`), cached in
+# .work/ under a hash of the driver and model sources; falls back to the interpreter (common.LeanDriver).
+# A seeded sample of every run is piped through BOTH and must agree (guards the native compilation).
+# ---------------------------------------------------------------------------------------------
+_DRV_SOURCES = ['Drv/GFpX.lean', 'MpycV/Model/GFpX.lean', 'MpycV/Model/BinPoly.lean', 'MpycV/Model/Util.lean']
+_NATIVE = {'path': None, 'tried': False}
+
+
+def native_driver_path(build=True):
+    """path of the native driver binary for the CURRENT sources (built on demand), or None"""
+    import hashlib
+    import shutil
+    if os.environ.get('VERIF_NO_NATIVE_DRIVER') == '1':
+        return None
+    try:
+        h = hashlib.sha256()
+        for rel in _DRV_SOURCES:
+            h.update(open(os.path.join(common.LEAN_DIR, rel), 'rb').read())
+        exe = os.path.join(common.WORK_DIR, 'drv_GFpX_' + h.hexdigest()[:16])
+        if os.path.exists(exe):
+            return exe
+        if not build or shutil.which('leanc') is None:
+            return None
+        os.makedirs(common.WORK_DIR, exist_ok=True)
+        ok, _log = common.lean_build(['MpycV.Model.BinPoly', 'MpycV.Model.Util'], timeout=1800)
+        if not ok:
+            return None
+        tmpc = exe + f'.{os.getpid()}.c'
+        tmpx = exe + f'.{os.getpid()}.tmp'
+        rc, _ = common.sh(['lake', 'env', 'lean', '-c', tmpc, 'Drv/GFpX.lean'], cwd=common.LEAN_DIR, timeout=1800)
+        irs = [os.path.join(common.LEAN_DIR, '.lake', 'build', 'ir', 'MpycV', 'Model', m + '.c')
+               for m in ('GFpX', 'BinPoly', 'Util')]
+        if rc != 0 or not all(os.path.exists(f) for f in irs):
+            return None
+        rc, _ = common.sh(['leanc', '-O2', '-o', tmpx, tmpc] + irs, cwd=common.LEAN_DIR, timeout=1800)
+        try:
+            os.remove(tmpc)
+        except OSError:
+            pass
+        if rc != 0 or not os.path.exists(tmpx):
+            return None
+        os.replace(tmpx, exe)
+        return exe
+    except (OSError, common.InfraError):
+        return None
+
+
+def drive(reqs, timeout=3600):
+    """request lines -> answer lines (list) or common.DriverFailure; native driver when available"""
+    if not reqs:
+        return []
+    if not _NATIVE['tried']:
+        _NATIVE['tried'] = True
+        _NATIVE['path'] = native_driver_path(build=False)
+    exe = _NATIVE['path']
+    if exe is None:
+        return common.LeanDriver('GFpX').run(reqs, timeout=timeout)
+    rc, out = common.sh([exe], input='\n'.join(reqs) + '\n', timeout=timeout)
+    outl = out.split('\n')
+    if outl and outl[-1] == '':
+        outl.pop()
+    if rc != 0 or len(outl) != len(reqs):
+        return common.LeanDriver('GFpX').run(reqs, timeout=timeout)      # never trust a failing native run
+    return outl
+
+
+def prepare_driver(ctx):
+    """build the native driver once (parent process) and cross-check it against the interpreter"""
+    exe = native_driver_path(build=True)
+    _NATIVE['tried'], _NATIVE['path'] = True, exe
+    if exe is None:
+        ctx.note('Lean driver: interpreted (lake env lean --run Drv/GFpX.lean)')
+        return
+    probe = ['add 3 1,2 2,2', 'mul 7 1,2,3 4,5,6', 'divmod 5 1,2,3,4 2,1', 'gcdext 7 1,0,0,1 6,1', 'invert 3 0,1 1,0,1',
+             'powmod 3 0,1 -2 1,0,1', 'powmod 3 0,1 5 N', 'irr 3 1,0,1', 'nextirr 3 100 -', 'findirr 5 3 1000',
+             'xgf 3 1,0,1', 'b.mul 19 7', 'b.divmod 100 7', 'b.gcdext 100 6', 'b.irr 283', 'b.findirr 8 1000',
+             'b.eval 3 0', 'terms 1,0,2,1', 'fromint 3 -7', 'lt 1,2 2,1', 'eval 7 1,2,3 -5', 'divmod 3 1 -', 'foo']
+    r = ctx.subrng('native-probe')
+    for _ in range(300):
+        p = r.choice([2, 3, 5, 7, 11, 101])
+        a = [r.randrange(p) for _ in range(r.randrange(0, 6))] + [r.randrange(1, p)]
+        b = [r.randrange(p) for _ in range(r.randrange(0, 4))] + [r.randrange(1, p)]
+        op = r.choice(['add', 'sub', 'mul', 'divmod', 'mod', 'gcd', 'gcdext', 'invert'])
+        probe.append(f'{op} {p} {fmtL(a)} {fmtL(b)}')
+    nat = drive(probe)
+    ref = common.LeanDriver('GFpX').run(probe)
+    if isinstance(ref, common.DriverFailure) or list(nat) != list(ref):
+        _NATIVE['path'] = None          # disagreement: use the interpreter for everything
+        ctx.note('Lean driver: native build disagrees with the interpreter on the probe -> interpreter used')
+        return
+    ctx.note(f'Lean driver: native build of Drv/GFpX.lean ({os.path.basename(exe)}), probe of {len(probe)} lines '
+             f'identical to the interpreter')
+
+
 def _worker(batch):
     """Evaluate a batch of jobs (real code + oracle), then pipe ALL request lines of the batch through ONE Lean
     driver process (its start-up is the expensive part) and diff."""
@@ -1105,7 +1204,7 @@ def _worker(batch):
     what = 'batch:' + ','.join(sorted({f"{js['kind']}[{js.get('dom') or ''}]" for js in batch}))
     sub = common.Ctx(js0['pid'], js0['tier'], js0['seed0'])
     if J.reqs:
-        model = common.LeanDriver('GFpX').run(J.reqs)
+        model = drive(J.reqs)
         if isinstance(model, common.DriverFailure):
             sub.compare(what, [], model)
         else:
@@ -1223,7 +1322,7 @@ def build_jobs(ctx, nodriver=False):
         add_laws(dname, ('grid', 0, 16, 16), 4096)
     # p = 3: all pairs of degree <= 3; all entry points on degree <= 2 (thorough: everywhere)
     for lo, hi in _chunks(0, 81, 6 if T else 3):
-        add_pairs('3', ('grid', lo, hi, 81), (hi - lo) * 81, None if T else 2)
+        add_pairs('3', ('grid', lo, hi, 81), (hi - lo) * 81, None if T else 1)
     if not T:
         add_pairs('3', ('grid', 0, 27, 27), 729, None)
     add_unary('3', 0, 81, True, 3)
@@ -1231,29 +1330,46 @@ def build_jobs(ctx, nodriver=False):
         add_powmod('3', ('range', lo, hi), hi - lo, None if T else 2)
     for lo, hi in _chunks(0, 27, 4):
         add_laws('3', ('grid', lo, hi, 27), (hi - lo) * 729)
-    # p = 5, 7: all pairs of degree <= 2 (thorough: <= 3 for p = 5) + a sample of pairs involving degree 3
+    # p = 5, 7.  thorough: all pairs of degree <= 2 (p = 5: <= 3) + a big sample of pairs involving degree 3.
+    # quick: all pairs of degree <= 1, a seeded sample of the pairs of degree <= 2 and of pairs involving degree 3
+    # (the full sweep of the exhaustive domain is left to the thorough tier to keep quick within ~2 minutes on a
+    # loaded machine).
     for p, D in ((5, 3 if T else 2), (7, 2)):
-        n = p ** (D + 1)
-        nops = None if T or p == 5 else 6          # quick, p = 7: 6 of the 9 pair operations per pair, rotating
-        for lo, hi in _chunks(0, n, max(1, n * n // 8000)):
-            add_pairs(str(p), ('grid', lo, hi, n), (hi - lo) * n, 1, nops)
-        cnt = ctx.scale(6000, 250000 if p == 7 else 60000)
+        if T:
+            n = p ** (D + 1)
+            for lo, hi in _chunks(0, n, max(1, n * n // 8000)):
+                add_pairs(str(p), ('grid', lo, hi, n), (hi - lo) * n, 1, None)
+        else:
+            n1 = p ** 2
+            add_pairs(str(p), ('grid', 0, n1, n1), n1 * n1, 1, None)
+            r2 = ctx.subrng('pairs2', p)
+            n2 = p ** 3
+            cnt2 = 5000 if p == 5 else 7000
+            sample2 = [(r2.randrange(n2), r2.randrange(n2)) for _ in range(cnt2)]
+            for lo, hi in _chunks(0, cnt2, 3):
+                add_pairs(str(p), ('list', sample2[lo:hi]), hi - lo, 1, None)
+        cnt = ctx.scale(3000, 250000 if p == 7 else 60000)
         sample = _sample_pairs(ctx.subrng('pairs3', p), p, cnt)
         for lo, hi in _chunks(0, cnt, max(1, cnt // 6000)):
             add_pairs(str(p), ('list', sample[lo:hi]), hi - lo, 1)
-        for lo, hi in _chunks(0, p ** 4, 2 if p == 5 else 6):
-            add_unary(str(p), lo, hi, lo == 0, p)
         if T or p == 5:
+            for lo, hi in _chunks(0, p ** 4, 2 if p == 5 else 6):
+                add_unary(str(p), lo, hi, lo == 0, p)
+        else:
+            for lo, hi in _chunks(0, p ** 3, 2):          # quick, p = 7: every polynomial of degree <= 2
+                add_unary(str(p), lo, hi, lo == 0, p)
+        if T:
             for lo, hi in _chunks(0, p ** 4, 6 if p == 5 else 24):
                 add_powmod(str(p), ('range', lo, hi), hi - lo, 1)
         else:
             r = ctx.subrng('powmod', p)
-            extra = sorted(r.sample(range(p ** 3, p ** 4), 300))
-            for lo, hi in _chunks(0, p ** 3, 3):
+            top = p ** 3 if p == 5 else p ** 2            # all of degree <= 2 (p = 5) / <= 1 (p = 7) + a sample
+            extra = sorted(r.sample(range(top, p ** 4), 200))
+            for lo, hi in _chunks(0, top, 2):
                 add_powmod(str(p), ('range', lo, hi), hi - lo, 1)
             add_powmod(str(p), ('list', extra), len(extra), 1)
         r = ctx.subrng('laws', p)
-        cnt = ctx.scale(3000, 30000)
+        cnt = ctx.scale(2000, 30000)
         tr = [(r.randrange(p ** 4), r.randrange(p ** 4), r.randrange(p ** 4)) for _ in range(cnt)]
         for lo, hi in _chunks(0, cnt, max(1, cnt // 3000)):
             add_laws(str(p), ('list', tr[lo:hi]), hi - lo)
@@ -1269,6 +1385,7 @@ def build_jobs(ctx, nodriver=False):
 
 
 def run(ctx):
+    prepare_driver(ctx)
     jobs = build_jobs(ctx)
     run_jobs(ctx, jobs, __name__)
     ctx.note(f'{len(jobs)} jobs; classes: GFpX(p) for p in 2,3,5,7,11,101,2^61-1 and the generic list code at p=2')
